@@ -20,6 +20,7 @@ type AlphaSpec struct {
 	Prefixes []string // extra Prefix arguments
 	NVals    int
 	NoAutoP  bool // do not derive prefix arguments automatically
+	Filler   []string
 }
 
 func rep(b byte, n int) string { return strings.Repeat(string([]byte{b}), n) }
@@ -63,6 +64,9 @@ func buildAlphaLike(sp AlphaSpec, autoPrefixes bool) (*Universe, *keyTable) {
 	}
 	for _, s := range sp.Probes {
 		u.DelExtra = append(u.DelExtra, t.add(s))
+	}
+	for _, s := range sp.Filler {
+		u.Filler = append(u.Filler, t.add(s))
 	}
 	// Search probes: every key that can be stored plus the absent probes.
 	nStorable := len(t.keys)
@@ -259,6 +263,7 @@ type FanSpec struct {
 	Order   int    // arrival order variant
 	Inner   bool   // make two of the children inner nodes
 	Tail    string // suffix after the branch byte
+	Fill    int    // number of filler siblings for the C12 epilogue
 }
 
 func FanUniverse(fs FanSpec) AlphaSpec {
@@ -351,6 +356,14 @@ func FanUniverse(fs FanSpec) AlphaSpec {
 	}
 	if fs.Path != "" {
 		sp.Probes = append(sp.Probes, fs.Path, fs.Path[:len(fs.Path)-1])
+	}
+	if fs.Fill > 0 {
+		fb := spreadBytes(fs.Fill, nil)
+		// arrival order of the filler: bit-reversed (neither ascending nor descending)
+		sort.Slice(fb, func(a, b int) bool { return rev8(int(fb[a])) < rev8(int(fb[b])) })
+		for _, b := range fb {
+			sp.Filler = append(sp.Filler, mk(b))
+		}
 	}
 	return sp
 }
